@@ -78,7 +78,7 @@ PairPlan == [w \in DOMAIN LazyWorlds |-> {"single", "pair", "seq"}]
 \* for M(K) in the quick tier: the mixes with a request whose outcome M(K) can change
 KQuickPlan == [plain |-> {"single", "pairwith", "seqwith"}, godir |-> {"single"}, registered |-> {"single"}]
 SmallPlan == [plain |-> {"pairsel", "seq"}]
-TriplePlan == [plain |-> {"triple", "pairseq"}, registered |-> {"triple", "pairseq"}]
+TriplePlan == [plain |-> {"triple", "pairseq"}]
 
 MCInit == \E w \in DOMAIN Plan : \E m \in MixSet(Plan[w]) : mix = m /\ InitWith(w, ProgOf(m))
 MCNext == Next /\ UNCHANGED mix
